@@ -217,6 +217,8 @@ Section Proofs.
       - destruct (linE om wm h r) as [[v J] m]; simpl in *. now rewrite IHh.
       - destruct (linE om wm h1 r) as [[v1 J1] m1]; destruct (linE om wm h2 r) as [[v2 J2] m2]; simpl in *.
         now rewrite IHh1, IHh2.
+      - destruct (linE om wm h r) as [[v J] m]; simpl in *. now rewrite IHh.
+      - destruct (linE om wm h r) as [[v J] m]; simpl in *. now rewrite IHh.
     Qed.
 
     Lemma evalED_value h r d : fst (evalED h r d) = evalE h r.
@@ -226,6 +228,8 @@ Section Proofs.
           now rewrite !(dual_value e r d).
       - destruct (evalED h r d); simpl in *. now rewrite IHh.
       - destruct (evalED h1 r d); destruct (evalED h2 r d); simpl in *. now rewrite IHh1, IHh2.
+      - destruct (evalED h r d); simpl in *. now rewrite IHh.
+      - destruct (evalED h r d); simpl in *. now rewrite IHh.
     Qed.
 
     Lemma linE_jac_dual om wm h r d : times (snd (fst (linE om wm h r))) d 0 = snd (evalED h r d).
@@ -243,6 +247,8 @@ Section Proofs.
       - destruct (linE om wm h r) as [[v J] m]; destruct (evalED h r d); simpl in *. now rewrite IHh.
       - destruct (linE om wm h1 r) as [[v1 J1] m1]; destruct (linE om wm h2 r) as [[v2 J2] m2].
         destruct (evalED h1 r d); destruct (evalED h2 r d); simpl in *. now rewrite IHh1, IHh2.
+      - destruct (linE om wm h r) as [[v J] m]; destruct (evalED h r d); simpl in *. exact IHh.
+      - destruct (linE om wm h r) as [[v J] m]; destruct (evalED h r d); simpl in *. rewrite IHh. ring.
     Qed.
 
     Lemma metric_absent om h r : snd (linE om false h r) = None.
@@ -252,6 +258,8 @@ Section Proofs.
       - destruct (linE om false h r) as [[v J] m]; simpl in *. subst. now destruct (anonneg c).
       - destruct (linE om false h1 r) as [[v1 J1] m1]; destruct (linE om false h2 r) as [[v2 J2] m2]; simpl in *.
         now subst.
+      - destruct (linE om false h r) as [[v J] m]; simpl in *. exact IHh.
+      - destruct (linE om false h r) as [[v J] m]; simpl in *. now subst.
     Qed.
 
     Lemma metric_carried om h r : scales_nonneg h = true ->
@@ -285,6 +293,12 @@ Section Proofs.
         destruct (IHh1 Hs1) as [M1 [HM1 HF1]]. destruct (IHh2 Hs2) as [M2 [HM2 HF2]].
         destruct (linE om true h1 r) as [[v1 J1] m1]; destruct (linE om true h2 r) as [[v2 J2] m2]; simpl in *.
         subst. eexists; split; [reflexivity|]. intros d k i; simpl. unfold eadd. now rewrite HF1, HF2.
+      - destruct (IHh Hs) as [M [HM HF]].
+        destruct (linE om true h r) as [[v J] m]; simpl in *. subst m.
+        eexists; split; [reflexivity|]. exact HF.
+      - destruct (IHh Hs) as [M [HM HF]].
+        destruct (linE om true h r) as [[v J] m]; simpl in *. subst m. simpl.
+        eexists; split; [reflexivity|]. intros d k i; simpl. now rewrite HF.
     Qed.
   End Energy.
 End Proofs.
